@@ -85,8 +85,8 @@ func oracle(in *ctl.Inst, r *vs.Result) []string {
 		msgs = append(msgs, fmt.Sprintf("Close hangs | %s: Close() did not return / Done() did not close (closes returned %d of %d); blocked: %v", desc, o.CloseReturned, o.ClosesIssued, ctl.BlockedNames(r)))
 		return msgs
 	}
-	if len(r.Blocked) > 0 {
-		msgs = append(msgs, fmt.Sprintf("goroutine leak | %s: after Done(): %v", desc, ctl.BlockedNames(r)))
+	if lb := ctl.LibBlocked(r); len(lb) > 0 {
+		msgs = append(msgs, fmt.Sprintf("goroutine leak | %s: after Done(): %v", desc, lb))
 	}
 	if o.MaxFlight > 1 {
 		msgs = append(msgs, fmt.Sprintf("concurrent lists | %s: %d List calls in flight", desc, o.MaxFlight))
